@@ -281,6 +281,10 @@ def check(tier="quick", seed=0, workers=None, only=None):
         if v["oracle"] == "C14.request-sent-twice":
             v = dict(v, oracle="C20.resent-after-establishment", message="a request that failed after the connection was established was sent again: " + v["message"])
             viols.append(v)
+    from . import backends
+    bst, binfo = backends.run_for(tier, seed, workers, None, purpose="retries") if not only else (engine.Stats(bound=1), {})
+    viols += common.collect(bst, ("C20",))
+    st.evaluations += bst.evaluations
     st.evaluations += cst.evaluations
     st.states += cst.states
     st.transitions += cst.transitions
@@ -290,6 +294,6 @@ def check(tier="quick", seed=0, workers=None, only=None):
               "ReadTimeout / WriteError / OSError, at the TCP (or Unix-socket) and TLS stages, then the exchange succeeds or fails with ReadError; "
               "two requests in a row on one directly used connection object (the establishment loop runs again on the same object); for retries N in 0..3 (quick) / 0..4 (thorough), http and https, TCP and UDS, sync and async, and (async, N in 0,2,3) through the library's default AutoBackend object delegating to the simulated backend; no merging: executions = leaves; "
               "non-trivial = outcome class (attempts, established?, final error) with more than one attempt or a failed establishment"),
-        extra={"scenarios": len(sp), "goaway_resend_scenarios": cinfo})
+        extra={"scenarios": len(sp), "goaway_resend_scenarios": cinfo, "real_backends_with_retries": binfo})
     return {"level": "fault_enumeration", "coverage": cov, "violations": viols,
             "assumptions": ["reference model: attempts <= N+1, pauses 0,0.5,1,2,..., only ConnectError/ConnectTimeout retried, last error raised, nothing after establishment retried"]}
